@@ -375,62 +375,221 @@ theorem write_read {σ : Type} (st : Store σ) (ok : σ → Prop) :
   · intro hv
     simp only [writeRaw, encode_rejects_out_of_range e he v hv, Option.bind_none]
 
-/-- the bit-field width usable through the typed accessor: all `w` bits of an unsigned type,
-    the `w-1` value bits of a signed one (see `signbit_write_rejected`) -/
-def usableBits (w : Nat) (signed : Bool) : Nat := if signed then w - 1 else w
+open Canopen.C04 in
+/-- the width `encode_bits` uses (`len(self)` when the generated `SIGNED_TYPES` tuple has the type)
+    is the CiA 301 width, for exactly the signed types -/
+theorem signedWidth_table :
+    ∀ e ∈ intTypes, signedWidth e.1 = (if e.2.2 then some e.2.1 else none) ∧ 0 < e.2.1 := by
+  decide
 
-theorem new_inRange (w : Nat) (sg : Bool) (raw new : Int) (lo hi v : Nat)
-    (hr : inRange w sg raw = true) (hhi : hi ≤ usableBits w sg)
-    (hb : ∀ i, tbit new i = if lo ≤ i ∧ i < hi then v.testBit (i - lo) else tbit raw i) :
-    inRange w sg new = true := by
+/-- `encode_bits` of a type, on patterns: for an in-range raw value, a contiguous field inside the
+    width and a value that fits, the result is in range and its `w`-bit two's complement pattern
+    is the old pattern with exactly the field replaced. -/
+theorem encodeBitsTyped_pattern (w : Nat) (hw : 0 < w) (sg : Bool) (raw : Int)
+    (hr : inRange w sg raw = true) (lo hi v : Nat) (h : lo < hi) (hhi : hi ≤ w)
+    (hv : v < 2 ^ (hi - lo)) :
+    ∃ new, encodeBitsTyped (if sg then some w else none) raw (contig lo hi) v = some new ∧
+      inRange w sg new = true ∧
+      ∀ i, (ofSigned w new).testBit i =
+        if lo ≤ i ∧ i < hi then v.testBit (i - lo) else (ofSigned w raw).testBit i := by
   cases sg with
   | false =>
-    simp only [usableBits, Bool.false_eq_true, if_false] at hhi
-    rw [inRange_unsigned_iff] at hr ⊢
-    intro i hi'
-    rw [hb i, if_neg (by omega)]
-    exact hr i hi'
+    obtain ⟨new, hnew, hb⟩ := bits_set_exact raw lo hi v h hv
+    have hin : inRange w false new = true := by
+      rw [inRange_unsigned_iff] at hr ⊢
+      intro i hi'
+      rw [hb i, if_neg (by omega)]
+      exact hr i hi'
+    refine ⟨new, ?_, hin, ?_⟩
+    · simp only [Bool.false_eq_true, if_false, encodeBitsTyped, toPattern, fromPattern, hnew,
+        Option.map_some]
+    · intro i
+      rw [testBit_ofSigned, testBit_ofSigned, hb i]
+      by_cases hf : lo ≤ i ∧ i < hi
+      · have : i < w := by omega
+        simp [hf, this]
+      · simp [hf]
   | true =>
-    simp only [usableBits, if_true] at hhi
-    rw [inRange_signed_iff] at hr ⊢
-    intro i hi'
-    rw [hb i, if_neg (by omega), hb (w - 1), if_neg (by omega)]
-    exact hr i hi'
+    obtain ⟨new', hnew', hb⟩ := bits_set_exact ((ofSigned w raw : Nat) : Int) lo hi v h hv
+    have hun : inRange w false new' = true := by
+      rw [inRange_unsigned_iff]
+      intro i hi'
+      rw [hb i, if_neg (by omega), tbit_natCast, testBit_ofSigned]
+      simp [Nat.not_lt.mpr hi']
+    have hnn : 0 ≤ new' ∧ new' < ((2 ^ w : Nat) : Int) := by
+      simpa [inRange] using hun
+    obtain ⟨p, hp⟩ : ∃ p : Nat, new' = (p : Int) := ⟨new'.toNat, by omega⟩
+    subst hp
+    have hplt : p < 2 ^ w := by omega
+    refine ⟨toSigned w p, ?_, toSigned_inRange w hw p hplt, ?_⟩
+    · simp only [if_true, encodeBitsTyped, toPattern_some, hnew', Option.map_some,
+        fromPattern_lt w hw p hplt]
+    · intro i
+      rw [ofSigned_toSigned w hw p hplt]
+      have := hb i
+      rw [tbit_natCast, tbit_natCast] at this
+      exact this
 
 open Canopen.C04 in
-/-- **T bits_through_store_partial.**  Through the typed accessor of any lawful store, for every
-    integer type, every in-range raw value, every key spelling that resolves to a contiguous
-    range `[lo, hi)` inside the usable bits and every field value that fits:
-    `var.bits[key] = v` succeeds, the raw value read afterwards has exactly `v` in `[lo, hi)`
-    and the old bits elsewhere, the stored bytes are its CiA 301 pattern, and `var.bits[key]`
-    returns `v`.
+/-- **T stored_pattern.**  The raw value behind well-formed stored bytes: it is in range and its
+    `w`-bit two's complement pattern is the little-endian value of the bytes. -/
+theorem stored_pattern : ∀ e ∈ intTypes, ∀ bs : Bytes, AllBytes bs → bs.length = e.2.1 / 8 →
+    ∃ raw : Int, decodeRaw (some e.1) bs = some (.int raw) ∧ inRange e.2.1 e.2.2 raw = true ∧
+      ofSigned e.2.1 raw = leVal bs := by
+  intro e he bs hb hl
+  obtain ⟨raw, hdec, hin, henc⟩ := encode_decode e he bs hb hl
+  refine ⟨raw, hdec, hin, ?_⟩
+  rw [encode_is_twos_complement_le e he raw hin] at henc
+  have := congrArg leVal (Option.some.inj henc)
+  rw [leVal_leBytes, (intTypes_wf e he).2, Nat.mod_eq_of_lt (ofSigned_lt _ _)] at this
+  exact this
 
-    Full statement (FALSE on the code, finding F13): the same with `hi ≤ w` for signed types too.
-    Missing: fields containing the sign bit of a signed type — `encode_bits` works on the
-    unbounded Python int, so changing bit `w-1` produces a value outside the type's range and
-    `encode_raw` raises `ValueError` (`signbit_write_rejected`). -/
-theorem bits_through_store_partial {σ : Type} (st : Store σ) (ok : σ → Prop) (od : OdVar) :
+open Canopen.C04 in
+/-- **T bits_through_store.**  Through the typed accessor of any lawful store, for every integer
+    type **signed or unsigned**, every in-range raw value, every key spelling that resolves to a
+    contiguous range `[lo, hi)` inside the type's width (the sign bit included) and every field
+    value that fits: `var.bits[key] = v` succeeds; the value read afterwards is in range and its
+    two's complement pattern is the old pattern with exactly `v` in `[lo, hi)` and every other
+    bit unchanged; the stored bytes are that pattern, little-endian; and `var.bits[key]` returns
+    `v`. -/
+theorem bits_through_store {σ : Type} (st : Store σ) (ok : σ → Prop) (od : OdVar) :
     ∀ e ∈ intTypes, od.dtype = e.1 → Lawful st (e.2.1 / 8) ok →
     ∀ (s : σ) (raw : Int) (k : Key) (lo hi v : Nat), ok s →
       readRaw od.dtype st s = some raw → inRange e.2.1 e.2.2 raw = true →
-      resolveKey od.bitdefs k = some (contig lo hi) → lo < hi → hi ≤ usableBits e.2.1 e.2.2 →
+      resolveKey od.bitdefs k = some (contig lo hi) → lo < hi → hi ≤ e.2.1 →
       v < 2 ^ (hi - lo) →
       ∃ s' new, setBits od st s k v = some s' ∧ ok s' ∧
-        readRaw od.dtype st s' = some new ∧
-        (∀ i, tbit new i = if lo ≤ i ∧ i < hi then v.testBit (i - lo) else tbit raw i) ∧
+        readRaw od.dtype st s' = some new ∧ inRange e.2.1 e.2.2 new = true ∧
+        (∀ i, (ofSigned e.2.1 new).testBit i =
+          if lo ≤ i ∧ i < hi then v.testBit (i - lo) else (ofSigned e.2.1 raw).testBit i) ∧
         st.get s' = some (leBytes (e.2.1 / 8) (ofSigned e.2.1 new)) ∧
         getBits od st s' k = some (v : Int) := by
   intro e he hdt hl s raw k lo hi v hs hraw hr hk hlt hhi hv
-  obtain ⟨new, hnew, hdec, _⟩ := bits_get_set raw lo hi v hlt hv
-  obtain ⟨new', hnew', hb⟩ := bits_set_exact raw lo hi v hlt hv
-  rw [hnew] at hnew'; cases hnew'
-  have hin := new_inRange e.2.1 e.2.2 raw new lo hi v hr hhi hb
+  obtain ⟨hsw, hw0⟩ := signedWidth_table e he
+  obtain ⟨new, hnew, hin, hb⟩ := encodeBitsTyped_pattern e.2.1 hw0 e.2.2 raw hr lo hi v hlt hhi hv
   obtain ⟨s', hw, hok, hrd, hget⟩ := (write_read st ok e he hl s new hs).1 hin
   rw [hdt] at hraw
-  refine ⟨s', new, ?_, hok, ?_, hb, hget, ?_⟩
-  · simp only [setBits, hdt, hraw, hk, hnew, Option.bind_some, hw]
+  refine ⟨s', new, ?_, hok, ?_, hin, hb, hget, ?_⟩
+  · simp only [setBits, hdt, hraw, hk, hsw, hnew, Option.bind_some, hw]
   · rw [hdt]; exact hrd
-  · simp only [getBits, hdt, hrd, hk, hdec]
+  · obtain ⟨r, hr', hrb⟩ := bits_get new lo hi hlt
+    simp only [getBits, hdt, hrd, hk, hr']
+    congr 1
+    apply tbit_ext
+    intro j
+    rw [hrb j, tbit_natCast]
+    by_cases hj : j < hi - lo
+    · have h1 := hb (lo + j)
+      rw [testBit_ofSigned, if_pos (by omega), Nat.add_sub_cancel_left] at h1
+      have hlt' : lo + j < e.2.1 := by omega
+      simp only [hlt', decide_true, Bool.true_and] at h1
+      simp [hj, h1]
+    · have : v.testBit j = false := by
+        cases hq : v.testBit j with
+        | false => rfl
+        | true => exact absurd (testBit_lt_of_lt_two_pow v _ _ hv hq) hj
+      simp [hj, this]
+
+open Canopen.C04 in
+/-- **T bits_through_store_bytes.**  The same in terms of the bytes behind the variable: if the
+    store holds well-formed bytes `bs`, after `var.bits[key] = v` it holds the little-endian bytes
+    of the number whose bits are those of `bs` with exactly the field replaced. -/
+theorem bits_through_store_bytes {σ : Type} (st : Store σ) (ok : σ → Prop) (od : OdVar) :
+    ∀ e ∈ intTypes, od.dtype = e.1 → Lawful st (e.2.1 / 8) ok →
+    ∀ (s : σ) (bs : Bytes) (k : Key) (lo hi v : Nat), ok s →
+      st.get s = some bs → AllBytes bs → bs.length = e.2.1 / 8 →
+      resolveKey od.bitdefs k = some (contig lo hi) → lo < hi → hi ≤ e.2.1 →
+      v < 2 ^ (hi - lo) →
+      ∃ s' p, setBits od st s k v = some s' ∧ ok s' ∧
+        st.get s' = some (leBytes (e.2.1 / 8) p) ∧ p < 2 ^ e.2.1 ∧
+        (∀ i, p.testBit i =
+          if lo ≤ i ∧ i < hi then v.testBit (i - lo) else (leVal bs).testBit i) ∧
+        getBits od st s' k = some (v : Int) := by
+  intro e he hdt hl s bs k lo hi v hs hget hb hlen hk hlt hhi hv
+  obtain ⟨raw, hdec, hin, hpat⟩ := stored_pattern e he bs hb hlen
+  have hraw : readRaw od.dtype st s = some raw := by
+    simp only [readRaw, hget, Option.bind_some, hdt, hdec, valInt]
+  obtain ⟨s', new, hset, hok, _, _, hbits, hget', hgb⟩ :=
+    bits_through_store st ok od e he hdt hl s raw k lo hi v hs hraw hin hk hlt hhi hv
+  refine ⟨s', ofSigned e.2.1 new, hset, hok, hget', ofSigned_lt _ _, ?_, hgb⟩
+  intro i
+  rw [hbits i, hpat]
+
+open Canopen.C04 in
+/-- **T signbit_write_sets_sign.**  For every signed type and every field `[lo, w)` that contains
+    the sign bit: the assignment is accepted whatever the old sign, and the value read afterwards
+    is negative exactly when the top bit of the field value is set (INTEGERn `r` with bit `n-1`
+    written becomes the two's complement reinterpretation). -/
+theorem signbit_write_sets_sign {σ : Type} (st : Store σ) (ok : σ → Prop) (od : OdVar) :
+    ∀ e ∈ intTypes, e.2.2 = true → od.dtype = e.1 → Lawful st (e.2.1 / 8) ok →
+    ∀ (s : σ) (raw : Int) (k : Key) (lo v : Nat), ok s →
+      readRaw od.dtype st s = some raw → inRange e.2.1 true raw = true →
+      resolveKey od.bitdefs k = some (contig lo e.2.1) → lo < e.2.1 → v < 2 ^ (e.2.1 - lo) →
+      ∃ s' new, setBits od st s k v = some s' ∧ readRaw od.dtype st s' = some new ∧
+        (new < 0 ↔ v.testBit (e.2.1 - 1 - lo) = true) ∧
+        (∀ i, i < lo → tbit new i = tbit raw i) := by
+  intro e he hsg hdt hl s raw k lo v hs hraw hr hk hlt hv
+  have hr' : inRange e.2.1 e.2.2 raw = true := by rw [hsg]; exact hr
+  obtain ⟨s', new, hset, _, hrd, hin, hbits, _, _⟩ :=
+    bits_through_store st ok od e he hdt hl s raw k lo e.2.1 v hs hraw hr' hk hlt (Nat.le_refl _) hv
+  rw [hsg] at hin
+  have hw0 := (signedWidth_table e he).2
+  refine ⟨s', new, hset, hrd, ?_, ?_⟩
+  · rw [neg_iff_tbit e.2.1 new hin]
+    have h1 := hbits (e.2.1 - 1)
+    rw [testBit_ofSigned, if_pos (by omega)] at h1
+    have : e.2.1 - 1 < e.2.1 := by omega
+    simp only [this, decide_true, Bool.true_and] at h1
+    rw [h1]
+  · intro i hi
+    have h1 := hbits i
+    rw [testBit_ofSigned, testBit_ofSigned, if_neg (by omega)] at h1
+    have : i < e.2.1 := by omega
+    simpa [this] using h1
+
+open Canopen.C04 in
+/-- **T bits_beyond_width_rejected.**  Bits do not exist beyond the type's width, for signed types
+    exactly as for unsigned ones: if the mask arithmetic on the `w`-bit pattern yields a number of
+    more than `w` bits (a bit number `≥ w` set, a field value wider than the room left), the
+    assignment raises and nothing is stored — never a silently truncated value. -/
+theorem bits_beyond_width_rejected {σ : Type} (st : Store σ) (od : OdVar) :
+    ∀ e ∈ intTypes, od.dtype = e.1 →
+    ∀ (s : σ) (raw : Int) (k : Key) (bits : List Int) (v : Int) (p : Nat),
+      readRaw od.dtype st s = some raw → inRange e.2.1 e.2.2 raw = true →
+      resolveKey od.bitdefs k = some bits →
+      encodeBits ((ofSigned e.2.1 raw : Nat) : Int) bits v = some (p : Int) → 2 ^ e.2.1 ≤ p →
+      setBits od st s k v = none := by
+  intro e he hdt s raw k bits v p hraw hr hk henc hp
+  obtain ⟨hsw, hw0⟩ := signedWidth_table e he
+  rw [hdt] at hraw
+  have hpat : toPattern (if e.2.2 then some e.2.1 else none) raw = ((ofSigned e.2.1 raw : Nat) : Int) := by
+    cases hsg : e.2.2 with
+    | true => simp only [if_true]; exact toPattern_some _ _
+    | false =>
+      rw [hsg] at hr
+      simp only [Bool.false_eq_true, if_false, toPattern]
+      exact (ofSigned_nonneg e.2.1 raw hr).symm
+  have hfrom : fromPattern (if e.2.2 then some e.2.1 else none) (p : Int) = (p : Int) := by
+    cases e.2.2 with
+    | true => simp only [if_true]; exact fromPattern_ge _ hw0 p hp
+    | false => rfl
+  have hout : inRange e.2.1 e.2.2 (p : Int) = false := by
+    have h2 : 2 ^ (e.2.1 - 1) ≤ 2 ^ e.2.1 := Nat.pow_le_pow_right (by decide) (Nat.sub_le _ _)
+    cases hq : inRange e.2.1 e.2.2 (p : Int) with
+    | false => rfl
+    | true =>
+      exfalso
+      cases hsg : e.2.2 with
+      | false =>
+        rw [hsg] at hq
+        simp only [inRange, Bool.false_eq_true, if_false, Bool.and_eq_true, decide_eq_true_eq] at hq
+        omega
+      | true =>
+        rw [hsg] at hq
+        simp only [inRange, if_true, Bool.and_eq_true, decide_eq_true_eq] at hq
+        omega
+  simp only [setBits, hdt, hraw, hk, hsw, encodeBitsTyped, hpat, henc, Option.map_some, hfrom,
+    Option.bind_some, writeRaw, encode_rejects_out_of_range e he _ hout, Option.bind_none]
 
 open Canopen.C04 in
 /-- **T desc_through_store.**  `var.desc = d` for a description naming an in-range value stores
@@ -585,86 +744,25 @@ theorem store_instances :
     · have h1 : (fr.take off ++ x).length = off + n := by simp; omega
       rw [← h1, List.drop_left, h1, hx]
 
-/-! ## finding F13: the sign bit of a signed type cannot be written through `bits` -/
+/-! ## regression: the sign bit of a signed type through `bits` (repaired defect) -/
 
-/-- the INTEGER8 variable used in the counterexample -/
+/-- the INTEGER8 variable of the regression examples -/
 def int8Var : OdVar := ⟨Gen.Datatypes.INTEGER8, 1, [], []⟩
 
-/-- **Counterexample to the full `bits_through_store` statement** (closed, by evaluation):
-    INTEGER8 holding 0, `var.bits[7] = 1` raises (128 does not fit `b`) and stores nothing;
-    holding -1, `var.bits[7] = 0` raises as well; the same on `bits[4:8]`. -/
-theorem signbit_write_rejected :
-    setBits int8Var cellStore [0x00] (.num 7) 1 = none ∧
-    setBits int8Var cellStore [0xFF] (.num 7) 0 = none ∧
-    setBits int8Var cellStore [0x00] (.slice (some 4) (some 8) none) 8 = none ∧
-    encodeBits 0 [7] 1 = some 128 ∧ inRange 8 true 128 = false ∧
-    -- while bits below the sign bit, and the sign bit left as it is, are fine:
-    setBits int8Var cellStore [0xFF] (.slice (some 4) (some 7) none) 0 = some [0x8F] ∧
-    setBits int8Var cellStore [0xFF] (.slice (some 4) (some 8) none) 8 = some [0x8F] := by
+-- INTEGER8 holding 0: `var.bits[7] = 1` stores 0x80 and the raw value reads −128 (raised
+-- `ValueError` and stored nothing before the repair); −1 with `bits[7] = 0` becomes 127;
+-- `bits[4:8]` likewise; a bit beyond the width is still refused, as for UNSIGNED8
+example :
+    setBits int8Var cellStore [0x00] (.num 7) 1 = some [0x80] ∧
+    readRaw int8Var.dtype cellStore [0x80] = some (-128) ∧
+    setBits int8Var cellStore [0xFF] (.num 7) 0 = some [0x7F] ∧
+    setBits int8Var cellStore [0x00] (.slice (some 4) (some 8) none) 8 = some [0x80] ∧
+    setBits int8Var cellStore [0xFF] (.slice (some 4) (some 8) none) 7 = some [0x7F] ∧
+    getBits int8Var cellStore [0x7F] (.slice (some 4) (some 8) none) = some 7 ∧
+    setBits int8Var cellStore [0x00] (.num 8) 1 = none ∧
+    setBits int8Var cellStore [0xFF] (.num 8) 1 = none ∧
+    setBits ⟨Gen.Datatypes.UNSIGNED8, 1, [], []⟩ cellStore [0xFF] (.num 8) 1 = none := by
   decide
-
-theorem new_inRange_signed_top (w : Nat) (raw new : Int) (lo v : Nat)
-    (hr : inRange w true raw = true) (hlo : lo < w)
-    (hb : ∀ i, tbit new i = if lo ≤ i ∧ i < w then v.testBit (i - lo) else tbit raw i) :
-    inRange w true new = true ↔ v.testBit (w - 1 - lo) = tbit raw (w - 1) := by
-  rw [inRange_signed_iff] at hr ⊢
-  have htop : tbit new (w - 1) = v.testBit (w - 1 - lo) := by
-    rw [hb (w - 1), if_pos (by omega)]
-  have hout : ∀ i, w ≤ i → tbit new i = tbit raw (w - 1) := by
-    intro i hi
-    rw [hb i, if_neg (by omega)]
-    exact hr i (by omega)
-  constructor
-  · intro h
-    have := h w (by omega)
-    rw [hout w (Nat.le_refl _), htop] at this
-    exact this.symm
-  · intro h i hi
-    by_cases hi' : i = w - 1
-    · rw [hi']
-    · rw [hout i (by omega), htop, h]
-
-open Canopen.C04 in
-/-- **T signbit_write_accepted_iff.**  The exact extent of finding F13, for every signed type,
-    every lawful store and every field `[lo, w)` that contains the sign bit: the assignment is
-    accepted **iff** it leaves the sign bit as it is (the field value's top bit equals the raw
-    value's sign); otherwise it raises and stores nothing.  (When accepted, the result is exact
-    as in `bits_through_store_partial`.) -/
-theorem signbit_write_accepted_iff {σ : Type} (st : Store σ) (ok : σ → Prop) (od : OdVar) :
-    ∀ e ∈ intTypes, e.2.2 = true → od.dtype = e.1 → Lawful st (e.2.1 / 8) ok →
-    ∀ (s : σ) (raw : Int) (k : Key) (lo v : Nat), ok s →
-      readRaw od.dtype st s = some raw → inRange e.2.1 true raw = true →
-      resolveKey od.bitdefs k = some (contig lo e.2.1) → lo < e.2.1 → v < 2 ^ (e.2.1 - lo) →
-      ((∃ s', setBits od st s k v = some s') ↔ v.testBit (e.2.1 - 1 - lo) = tbit raw (e.2.1 - 1)) ∧
-      (∀ s', setBits od st s k v = some s' →
-        ∃ new, readRaw od.dtype st s' = some new ∧
-          ∀ i, tbit new i = if lo ≤ i ∧ i < e.2.1 then v.testBit (i - lo) else tbit raw i) := by
-  intro e he hsg hdt hl s raw k lo v hs hraw hr hk hlt hv
-  obtain ⟨new, hnew, hb⟩ := bits_set_exact raw lo e.2.1 v hlt hv
-  have hiff := new_inRange_signed_top e.2.1 raw new lo v hr hlt hb
-  rw [hdt] at hraw
-  have hset : setBits od st s k v = writeRaw e.1 st s new := by
-    simp only [setBits, hdt, hraw, hk, hnew, Option.bind_some]
-  have hwr := write_read st ok e he hl s new hs
-  rw [hsg] at hwr
-  constructor
-  · rw [hset, ← hiff]
-    constructor
-    · rintro ⟨s', hs'⟩
-      cases hin : inRange e.2.1 true new with
-      | true => rfl
-      | false => rw [hwr.2 hin] at hs'; cases hs'
-    · intro hin
-      obtain ⟨s', hw, _⟩ := hwr.1 hin
-      exact ⟨s', hw⟩
-  · intro s' hs'
-    rw [hset] at hs'
-    cases hin : inRange e.2.1 true new with
-    | false => rw [hwr.2 hin] at hs'; cases hs'
-    | true =>
-      obtain ⟨s'', hw, _, hrd, _⟩ := hwr.1 hin
-      rw [hw] at hs'; cases hs'
-      exact ⟨new, by rw [hdt]; exact hrd, hb⟩
 
 /-! ## a held `Bits` object -/
 
@@ -697,7 +795,7 @@ theorem bitsObj_coherent {σ : Type} (st : Store σ) (ok : σ → Prop) (od : Od
     | none => simp
     | some bits =>
       simp only [Option.bind_some]
-      cases hn : encodeBits b.cache bits v with
+      cases hn : encodeBitsTyped (signedWidth od.dtype) b.cache bits v with
       | none => simp
       | some new =>
         simp only [Option.bind_some]
@@ -742,9 +840,10 @@ example : (6, 16, false) ∈ Canopen.C04.intTypes ∧
       = some [0xAA, 0x34, 0x1F, 0xDD] ∧
     getBits ⟨6, 1, [], []⟩ (frameStore 1 2) [0xAA, 0x34, 0x1F, 0xDD] (.slice (some 8) (some 12) none)
       = some 15 := by decide
--- sign bit: INTEGER8 −1, field [4,8): 8..15 keep the sign and are accepted, 0..7 are refused
-example : (2, 8, true) ∈ Canopen.C04.intTypes ∧
-    (setBits int8Var cellStore [0xFF] (.slice (some 4) (some 8) none) 9).isSome = true ∧
-    (setBits int8Var cellStore [0xFF] (.slice (some 4) (some 8) none) 7).isSome = false := by decide
+-- sign bit: INTEGER24 −1 over a PDO window, field [20,24) := 3 gives 0x3FFFFF (positive)
+example : (16, 24, true) ∈ Canopen.C04.intTypes ∧
+    setBits ⟨16, 1, [], []⟩ (frameStore 1 3) [0xAA, 0xFF, 0xFF, 0xFF, 0xBB] (.slice (some 20) (some 24) none) 3
+      = some [0xAA, 0xFF, 0xFF, 0x3F, 0xBB] ∧
+    readRaw 16 (frameStore 1 3) [0xAA, 0xFF, 0xFF, 0x3F, 0xBB] = some 4194303 := by decide
 
 end Canopen.C20
